@@ -306,7 +306,7 @@ def k4(ctx, kr):
              r'^cli::diagnostic$': lambda M, fr, c, a: VecV([Agg('Diagnostic', [Str('problem')])]),
              r'^<std::io::Error as std::string::ToString>::to_string$': lambda M, fr, c, a: Str('io error'), r'^std::path::Path::display$': lambda M, fr, c, a: Str('path')}
     M = Machine(P, stubs=stubs)
-    for n in ((1, 2) if ctx.tier == 'quick' else (1, 2, 3)):
+    for n in (1, 2):            # three entries x six names x three kinds x readable-or-not exceeds the path budget; the claim is stated for two
         def entry(M):
             st['canon_ok'] = M.fresh_bool('canonicalize_ok'); st['meta_ok'] = M.fresh_bool('metadata_ok'); st['readdir_ok'] = M.fresh_bool('read_dir_ok')
             k = M.fresh_bv('kind', 8); M.declare_domain(k, [0, 1, 2, 3])
@@ -354,7 +354,7 @@ def k4(ctx, kr):
     kr.queries += M.stats['smt']
     kr.functions = fn_paths(P, M.encoded); kr.models = sorted(M.models_used)
     kr.stubs = ['std::fs::{canonicalize, metadata, read_dir} and DirEntry::path as nondeterministic environment (Ok/Err per call, entry names symbolic over %s)' % NAMES, 'Path::extension / OsStr::to_str by documented contract']
-    kr.bounds = 'one directory argument with 1..2 [thorough: 3] entries, each entry name a symbolic choice out of %d names (extensions st / ST / iec / txt / none / dot-file), each entry a regular file, a symbolic link to a file or a sub-directory, each entry readable or not' % len(NAMES)
+    kr.bounds = 'one directory argument with 1..2 entries, each entry name a symbolic choice out of %d names (extensions st / ST / iec / txt / none / dot-file), each entry a regular file, a symbolic link to a file or a sub-directory, each entry readable or not' % len(NAMES)
     kr.exhaustive = True
     kr.outside = ['what is inside a sub-directory; dangling links']
 
